@@ -39,6 +39,49 @@ MUT_PER_FILE = {"quick": 2, "thorough": 12}
 RUSTDIR = os.path.join(vlib.WORK, "rust")
 
 
+def calling_conventions(maxlen):
+    """every parameter list of 1..maxlen parameters over {scalar, tuple, record} x every way of calling
+    (direct, through a function handle passed to a higher-order function, as a closure): the body is a
+    weighted sum of all leaves, so a parameter read from the wrong word changes the result"""
+    import itertools
+    out = []
+    for n in range(1, maxlen + 1):
+        for kinds in itertools.product("STR", repeat=n):
+            params, args, terms, tys = [], [], [], []
+            w = 1
+            for i, k in enumerate(kinds):
+                if k == "S":
+                    params.append(f"p{i}:float")
+                    tys.append("float")
+                    args.append(f"c + {i}")
+                    terms.append(f"p{i} * {w}")
+                    w *= 3
+                elif k == "T":
+                    params.append(f"p{i}:(float,float)")
+                    tys.append("(float,float)")
+                    args.append(f"(c + {i}, c * 2 + {i})")
+                    terms.append(f"p{i}.0 * {w} + p{i}.1 * {w * 3}")
+                    w *= 9
+                else:
+                    params.append(f"p{i}:{{lo:float, hi:float}}")
+                    tys.append("{lo:float, hi:float}")
+                    args.append(f"{{lo = c + {i}, hi = c * 3 + {i}}}")
+                    terms.append(f"p{i}.lo * {w} + p{i}.hi * {w * 3}")
+                    w *= 9
+            body = " + ".join(terms)
+            sig = ", ".join(params)
+            arglist = ", ".join(args)
+            name = "".join(kinds)
+            head = "fn counter(){ self + 1.0 }\n"
+            out.append((f"cc:{name}:direct", head + f"fn g({sig}){{ {body} }}\nfn dsp(){{\n  let c = counter()\n  g({arglist})\n}}\n"))
+            fty = "(" + ", ".join(tys) + ")->float"
+            out.append((f"cc:{name}:handle", head + f"fn g({sig}){{ {body} }}\nfn hof(f:{fty}, c:float){{ f({arglist}) }}\n"
+                        f"fn dsp(){{\n  hof(g, counter())\n}}\n"))
+            out.append((f"cc:{name}:closure", head + f"fn make(k:float){{ |{sig}| {{ {body} + k }} }}\n"
+                        f"fn dsp(){{\n  let f = make(100.0)\n  let c = counter()\n  f({arglist})\n}}\n"))
+    return out
+
+
 def pinned_cases():
     d = os.path.join(vlib.VERIF, "findings", "C18")
     out = []
@@ -152,8 +195,13 @@ def run(tier):
         for name, s in [(base, src)] + [(f"{base}#m{j}", m) for j, m in enumerate(mutants(src, MUT_PER_FILE[tier]))]:
             inputs = [[SPECIAL_INPUTS[(t + c) % len(SPECIAL_INPUTS)] for c in range(4)] for t in range(n)]
             reqs.append({"id": name, "src": s, "n": n, "path": f, "inputs": inputs})
+    # ---- (c) calling conventions: parameter lists over {scalar, tuple, record} x direct / handle / closure calls
+    ccs = calling_conventions(2 if tier == "quick" else 3)
+    for name, src in ccs:
+        reqs.append({"id": name, "src": src, "n": 4, "path": None, "inputs": []})
+    chk.cov["calling_convention_programs"] = len(ccs)
     byid = {r["id"]: r for r in reqs}
-    for rid_, (out, rout, crash, rcrash) in run_pair(reqs, timeout=120).items():
+    for rid_, (out, rout, crash, rcrash) in run_pair([{k: v for k, v in r.items() if v is not None} for r in reqs], timeout=120).items():
         r = byid[rid_]
         judge(f"file:{rid_}", rid_, r["src"], {"src": r["src"], "file": r["path"], "name": rid_, "n": n, "inputs": r["inputs"]},
               vlib.canon_key(r["src"]), out, rout, crash, rcrash, mutant="#m" in rid_)
